@@ -33,6 +33,14 @@ ListingsO == { WithAddrs(<< <<"m", o>> >>) : o \in OpSeqs }
         \cup { WithAddrs(<< <<"m", o>>, <<"q", <<>> >> >>) : o \in OpSeqs }
         \cup { WithAddrs(<< <<"m", o>>, <<"m", <<"y">> >> >>) : o \in SeqsBetween({"x", "y", "z"}, 1, 2) }
 
+\* ---- $not under the matching flags: instructions whose mnemonic merely CONTAINS the excluded name (ab, ba for a)
+\* are excluded by `$not: [a]' under substring matching and are NOT under mnemonics-full-match
+ArgsF == { I("a"), POr(<<I("a"), I("b")>>), PIns("a", <<OLit("x")>>), PAnd(<<I("a"), I("b")>>) }
+PatternsF == UNION { { PAnd(<<N(x), I("q")>>), PAnd(<<I("p"), N(x), I("q")>>), PAnd(<<I("p"), N(x)>>), PAnd(<<N(x)>>),
+                       PAnd(<<I("p"), WithTimes(N(x), 2, 2), I("q")>>) } : x \in ArgsF }
+BodiesF == { <<"a", <<>> >>, <<"ab", <<>> >>, <<"ba", <<>> >>, <<"a", <<"xy">> >>, <<"b", <<>> >>, <<"p", <<>> >>, <<"q", <<>> >> }
+ListingsF == ListingsOver(BodiesF, 0, MaxListing)
+UniverseF == [patterns |-> SetToSeq(PatternsF), listings |-> SetToSeq(ListingsF)]
 Universe == [patterns |-> SetToSeq(PatternsI), listings |-> SetToSeq(ListingsI)]
 UniverseO == [patterns |-> SetToSeq(PatternsO), listings |-> SetToSeq(ListingsO)]
 =============================================================================
